@@ -159,6 +159,36 @@ CALL_KINDS = ('CallExpr', 'CXXMemberCallExpr', 'CXXOperatorCallExpr', 'CXXConstr
               'CXXUnresolvedConstructExpr', 'UserDefinedLiteral')
 
 
+def _canon(d):
+    """canonical forms applied when a function tree is loaded: std::copy_n(a, n, d) becomes std::copy(a, a + n, d)"""
+    for i, c in enumerate(d.get('c', [])):
+        d['c'][i] = _canon(c)
+    # &p[k] -> p + k  (p a pointer or array; element address)
+    if d.get('k') == 'UnaryOperator' and d.get('o') == '&' and len(d.get('c', [])) == 1 and d['c'][0].get('k') == 'ArraySubscriptExpr' and len(d['c'][0].get('c', [])) == 2:
+        base, idx = d['c'][0]['c']
+        if base.get('t', '').rstrip().endswith('*') or '[' in base.get('t', ''):
+            d = {'k': 'BinaryOperator', 'o': '+', 'i': d.get('i', -1), 'l': d.get('l', 0), 't': d.get('t', ''), 'c': [base, idx], 'r': d.get('r'), 'canon': '&[]'}
+            if d['r'] is None:
+                del d['r']
+    # *(p + k) -> p[k] ; p[0] stays, *p stays (both forms are matched by the rules through as_elem)
+    if d.get('call') and d.get('cn') == 'copy_n' and d.get('k') == 'CallExpr' and len(d.get('c', [])) == 4:
+        cal, a, n, dst = d['c']
+        cal = dict(cal)
+        cal['n'] = 'copy'
+        import copy as _copy
+        a2 = _copy.deepcopy(a)
+        def strip_ids(x):
+            x['i'] = -1
+            for y in x.get('c', []):
+                strip_ids(y)
+        strip_ids(a2)
+        end = {'k': 'BinaryOperator', 'o': '+', 'i': -1, 'l': d.get('l', 0), 't': a.get('t', ''), 'c': [a2, n]}
+        d = dict(d)
+        d['cn'] = 'copy'
+        d['c'] = [cal, a, end, dst]
+    return d
+
+
 class Node:
     __slots__ = ('d', 'k', 'i', 'l', 'n', 'q', 'o', 'v', 't', 'r', 'c', 'parent', 'fn')
 
@@ -350,7 +380,7 @@ class Function:
         self.ret = h.get('ret')
         self.targs = h.get('targs', '')
         self.hdr = h
-        self.body = Node(rec['body'], None, self)
+        self.body = Node(_canon(rec['body']), None, self)
         self.inits = [(x.get('n'), Node(x['init'], None, self)) for x in h.get('inits', [])]
         self.nodes = {}
         for n in self.body.walk():
